@@ -1,17 +1,19 @@
 (* The independent GM/T 0024 decoder used by the C06 check: key derivation (SM3 -> HMAC -> P_hash -> key
-   block) and opening of protected records (SM4-CBC + HMAC-SM3, SM4-GCM), assembled from the specifications
-   SM3/HMACSpec.v, SM4/SM4Spec.v, Rec/GcmRef.v and the P_hash / key-block layout of Agree/KeyModel.v.
-   It never looks at the Go code.  No proofs in this file. *)
+   block) and opening of protected records (SM4-CBC + HMAC-SM3, SM4-GCM) by the record-layer model of C07
+   (Rec/RecordModel.v, proved against Rec/RecordSpec.v) instantiated with the specifications SM3/HMACSpec.v,
+   SM4/SM4Spec.v, Rec/GcmRef.v, and the P_hash / key-block layout of Agree/KeyModel.v.  No proofs in this file. *)
 From Coq Require Import List NArith Arith Bool.
-From GmsmVerif Require Import Gen.TLSSuites SM3.SM3Spec SM3.HMACSpec SM4.SM4Spec Rec.GcmRef Agree.KeyModel.
+From GmsmVerif Require Import Lib.Outcome Gen.TLSSuites SM3.SM3Spec SM3.HMACSpec SM4.SM4Spec Rec.GcmRef Rec.RecordModel Agree.KeyModel.
 Import ListNotations.
 Close Scope N_scope.
 
 Notation byte := N (only parsing).
 
-(* GM/T 0024 6.5: PRF = P_SM3 *)
+(* GM/T 0024 6.5: PRF = P_SM3.  Evaluated through the iterative form (KeyModel.prf12 with fuel n), which
+   Agree/PrfSM3.v proves equal to the specification PRF_spec hmac_sm3 (gm_prf_is_spec); the literal
+   specification recomputes A(i) from A(0) for each of n terms and is far too slow to run. *)
 Definition gm_prf (n : nat) (secret label seed : list byte) : list byte :=
-  PRF_spec hmac_sm3 n secret label seed.
+  match prf12 hmac_sm3 n n secret label seed with Ok x => x | _ => [] end.
 
 (* key_block = PRF(master_secret, "key expansion", server_random + client_random), cut as
    client_write_MAC | server_write_MAC | client_write_key | server_write_key | client_write_IV | server_write_IV *)
@@ -21,77 +23,38 @@ Definition gm_key_block (ms cr sr : list byte) (macLen keyLen ivLen : nat) :=
 Fixpoint be_n (k : nat) (n : N) : list byte :=
   match k with O => [] | S k' => be_n k' (n / 256)%N ++ [(n mod 256)%N] end.
 
-Fixpoint xorb_bytes (a b : list byte) : list byte :=
-  match a, b with x :: a', y :: b' => N.lxor x y :: xorb_bytes a' b' | _, _ => [] end.
+(* ---------- records: the record-layer model of Rec/RecordModel.v (halfConn.decrypt, C07) with the real
+   primitives: SM4 (SM4/SM4Spec.v, round keys computed once), HMAC-SM3 (SM3/HMACSpec.v), GCM (Rec/GcmRef.v) *)
+Definition wire_prims : prims :=
+  mkPrims 16 sm4_encrypt_rk sm4_decrypt_rk 32 hmac_sm3 16
+          (fun rk nonce ad pt => gcm_seal (sm4_encrypt_rk rk) nonce ad pt)
+          (fun rk nonce ad ct => gcm_open (sm4_encrypt_rk rk) nonce ad ct).
 
-(* CBC decryption, P_i = D(C_i) xor C_(i-1) *)
-Fixpoint cbc_decrypt (fuel : nat) (rks : list N) (prev ct : list byte) : list byte :=
-  match fuel with
-  | O => []
-  | S fuel' =>
-    match ct with
-    | [] => []
-    | _ => let c := firstn 16 ct in
-           xorb_bytes (sm4_decrypt_rk rks c) prev ++ cbc_decrypt fuel' rks c (skipn 16 ct)
+(* the reading half connection after the peer's ChangeCipherSpec and Finished: sequence number 1 *)
+Definition reading_half (aead : bool) (key mackey iv : list byte) (seq : N) : halfConn :=
+  let rk := sm4_round_keys key in
+  mkHC false gen_VersionGMSSL
+       (if aead then CipherAEAD rk iv else CipherCBC rk iv)
+       (if aead then None else Some mackey)
+       (be_n 8 seq).
+
+(* open the records of one direction in order; None = some record is refused (or the model panics) *)
+Fixpoint open_records (hc : halfConn) (recs : list (list byte)) : option (list byte) :=
+  match recs with
+  | [] => Some []
+  | r :: t =>
+    match RecordModel.decrypt wire_prims hc r with
+    | Ok (hc', Some frag) =>
+      match open_records hc' t with Some q => Some (frag ++ q) | None => None end
+    | _ => None
     end
   end.
-
-Definition beq (a b : list byte) : bool :=
-  Nat.eqb (length a) (length b) && forallb (fun p => N.eqb (fst p) (snd p)) (combine a b).
-
-(* a record: type(1) version(2) length(2) payload.
-   Block-cipher record (GM/T 0024 6.3.3.4.2, as TLS 1.1): payload = IV(16) | CBC(fragment | MAC(32) | padding | padding_length);
-   MAC = HMAC_SM3(mac_key, seq_num(8) | type | version | length(2) | fragment) *)
-Definition open_cbc (key mackey : list byte) (seq : N) (rec : list byte) : option (list byte) :=
-  let typ := firstn 1 rec in
-  let ver := firstn 2 (skipn 1 rec) in
-  let payload := skipn 5 rec in
-  if Nat.ltb (length payload) 64 || negb (Nat.eqb (length payload mod 16) 0) then None
-  else
-    let iv := firstn 16 payload in
-    let ct := skipn 16 payload in
-    let pt := cbc_decrypt (length ct) (sm4_round_keys key) iv ct in
-    let padlen := N.to_nat (last pt 0%N) in
-    if Nat.ltb (length pt) (padlen + 1 + 32) then None
-    else
-      let pad := skipn (length pt - padlen - 1) pt in
-      if negb (forallb (fun b => N.eqb b (N.of_nat padlen)) pad) then None
-      else
-        let body := firstn (length pt - padlen - 1) pt in
-        let frag := firstn (length body - 32) body in
-        let mac := skipn (length body - 32) body in
-        if beq mac (hmac_sm3 mackey (be_n 8 seq ++ typ ++ ver ++ be_n 2 (N.of_nat (length frag)) ++ frag))
-        then Some frag else None.
-
-(* AEAD record: payload = explicit nonce(8) | GCM ciphertext | tag(16); nonce = write_IV(4) | explicit;
-   additional data = seq_num(8) | type | version | length(2) of the plaintext *)
-Definition open_gcm (key salt : list byte) (seq : N) (rec : list byte) : option (list byte) :=
-  let typ := firstn 1 rec in
-  let ver := firstn 2 (skipn 1 rec) in
-  let payload := skipn 5 rec in
-  if Nat.ltb (length payload) 24 then None
-  else
-    let explicit := firstn 8 payload in
-    let ct := skipn 8 payload in
-    let rks := sm4_round_keys key in
-    gcm_open (sm4_encrypt_rk rks) (salt ++ explicit)
-             (be_n 8 seq ++ typ ++ ver ++ be_n 2 (N.of_nat (length ct - 16))) ct.
 
 (* lengths of a GM suite, from the generated table: (macLen, keyLen, ivLen, AEAD?) *)
 Definition lookup_row (suite : N) : option (nat * nat * nat * bool) :=
   match find (fun r => N.eqb (nth 0 r 0%N) suite) gen_gmCipherSuites with
   | Some r => Some (N.to_nat (nth 2 r 0%N), N.to_nat (nth 1 r 0%N), N.to_nat (nth 3 r 0%N), N.eqb (nth 5 r 0%N) 1)
   | None => None
-  end.
-
-(* open the application-data records of one direction, sequence numbers from [seq] on *)
-Fixpoint open_all (opener : N -> list byte -> option (list byte)) (seq : N) (recs : list (list byte)) : option (list byte) :=
-  match recs with
-  | [] => Some []
-  | r :: t => match opener seq r with
-              | None => None
-              | Some p => match open_all opener (seq + 1)%N t with Some q => Some (p ++ q) | None => None end
-              end
   end.
 
 (* suite 0xe013: SM4-CBC + HMAC-SM3 (mac 32, key 16, iv 16); suite 0xe053: SM4-GCM (mac 0, key 16, iv 4).
@@ -102,9 +65,7 @@ Definition decode_connection (suite : N) (ms cr sr : list byte) (c2s s2c : list 
   | None => None
   | Some (macLen, keyLen, ivLen, aead) =>
     let '(cm, sm, ck, sk, ci, si) := gm_key_block ms cr sr macLen keyLen ivLen in
-    let oc := if aead then open_gcm ck ci else open_cbc ck cm in
-    let os := if aead then open_gcm sk si else open_cbc sk sm in
-    match open_all oc 1%N c2s, open_all os 1%N s2c with
+    match open_records (reading_half aead ck cm ci 1) c2s, open_records (reading_half aead sk sm si 1) s2c with
     | Some a, Some b => Some (a, b)
     | _, _ => None
     end
